@@ -37,6 +37,14 @@ def gen_pair(rng, idx):
             ccfg = rng.choice(pool) if rng.random() < 0.4 else None
             cid = rng.choice([None, None, None, rng.randint(0, 30)])
             cs.append((c, ccfg, cid))
+        # sometimes the same component is listed twice under complementary predicates (exactly one of the two is enabled)
+        if rng.random() < 0.3:
+            k = rng.randrange(len(cs))
+            c, cc, ci = cs[k]
+            if cc is None:
+                cc = rng.choice(pool)
+                cs[k] = (c, cc, ci)
+            cs.insert(rng.randint(k + 1, len(cs)), (c, ('not(%s)' % cc[0], not cc[1]), None))
         # an enabled archetype needs at least one enabled component
         if all(cc is not None and not cc[1] for _, cc, _ in cs):
             cs[0] = (cs[0][0], None, cs[0][2])
